@@ -43,8 +43,28 @@ impl<const N: usize, Value> IndexMap<N, Value> {
 
     #[inline(always)]
     pub(crate) unsafe fn set(&mut self, index: usize, value: Value) {
+        if self.values.len() >= Self::NULL as usize {
+            /* `delete` leaves its entry in `values`: before a position
+               stops fitting in a slot, drop the entries no slot points at */
+            self.compact()
+        }
         *self.index.get_unchecked_mut(index) = self.values.len() as u8;
         self.values.push((index, value));
+    }
+
+    #[cold]
+    fn compact(&mut self) {
+        let (mut at, mut live) = (0, 0);
+        let index = &mut self.index;
+        self.values.retain(|(i, _)| {
+            let is_live = index[*i] as usize == at;
+            at += 1;
+            if is_live {
+                index[*i] = live as u8;
+                live += 1;
+            }
+            is_live
+        });
     }
 
     #[inline(always)]
